@@ -35,6 +35,12 @@ def c18(ctx):
              "<f64 as Display>::fmt on every path and writes nothing else to the formatter (no exponent form, no precision, no prefix), "
              "so every character of the text is a decimal digit, '.', or a sign -- the alphabet the template maps to words")
     constant_display_rule(ctx, "C18.R7")
+    rep.rule("C18.R8", "the whole right-hand side is judged: the constant-assignment pass never reaches into an expression list (no access to "
+             "ExpressionList.first / .rest under src/linter) -- whether a list folds to a single constant is the folders' decision "
+             "(C17.R2: only a one-element list folds), so `let x be 1, 2` is not reported as `1`; and the text of a string constant is the "
+             "string itself: Display for StringConstant hands self.value to write_str / <str as Display>::fmt on every path and never to a "
+             "Debug rendering (which would escape backslashes and control characters)")
+    whole_rhs_rule(ctx, "C18.R8")
     # the value named in the report is the folder's: re-run the folder/interpreter agreement rules under this property
     rep.rule("C18.R5", "the reported value is the one execution computes: the agreement rules of C17 (operator map, operand order, fold "
              "shape, never for non-constants) re-checked here, because a wrong fold makes the report and its suggestion wrong")
@@ -74,6 +80,7 @@ from ..kind import E, is_e  # noqa: E402
 from ..core import callee_def, op_local  # noqa: E402
 from ..flow import origins  # noqa: E402
 from .common import find_method, is_callee  # noqa: E402
+from .c03 import kind_deep as kind_deep_  # noqa: E402
 
 VP = "analysis::visit::VisitProgram"
 PASS = "linter::passes::boring_assignment::BoringAssignmentPass"
@@ -274,6 +281,41 @@ def spelling_guard_rule(ctx, rule):
         ok = rows == want and not I_.incomplete
         rep.ob(rule, "string-suggestion-guarded", ok, "" if ok else "a `says` suggestion is not made exactly for strings without a line break (a poetic string ends at the end of the line): %s" % sorted(rows, key=str), fn.loc(),
                how="contains('\\n') -> None, otherwise Some(..)")
+
+
+def whole_rhs_rule(ctx, rule):
+    F, rep = ctx.F, ctx.rep
+    EL = "frontend::ast::ExpressionList"
+    n_fns = sum(1 for fn in F.all_bodies(tests=False) if fn.file.startswith("src/linter/"))
+    hits = []
+    for field in ("first", "rest"):
+        for fn, bi, kind, s_ in common.field_accesses(F, EL, field):
+            if fn.file.startswith("src/linter/"):
+                hits.append((fn, s_, field))
+    ok = not hits and n_fns >= 20
+    rep.ob(rule, "pass-never-splits-a-list", ok,
+           "" if ok else ("%s reads ExpressionList.%s: the pass judges a part of the right-hand side instead of the whole list" % (common.top_fn(F, hits[0][0]).path, hits[0][2]) if hits else "only %d linter bodies found" % n_fns),
+           hits[0][0].loc(hits[0][1].get("line")) if hits else None, how="%d linter bodies, no access to ExpressionList.first/.rest" % n_fns)
+    fn = None
+    for f in F.all_fns(tests=False):
+        if f.path == "<analysis::tools::StringConstant as std::fmt::Display>::fmt":
+            fn = f
+    if fn is None:
+        rep.fail(rule, "anchor::StringConstant::fmt", "impl Display for StringConstant not found")
+        return
+    rep.analysed(fn)
+    bodies = list(F.with_closures(fn))
+    dbg = [t for b in bodies for bi, t in b.calls() if (callee_def(t) or "").endswith(("::new_debug", "::new_debug_noop")) or ((callee_def(t) or "") == "std::fmt::Debug::fmt")]
+    plain = [bi for bi, t in fn.calls() if (t["callee"].get("name") in ("write_str", "pad") or (callee_def(t) == "std::fmt::Display::fmt" and any(k in (t["callee"].get("inst") or "") for k in ("<str as", "<std::string::String as"))))
+             and any(d[0] == "param" and d[1] == 1 and "value" in p for a in t["args"] for d, p in kind_deep_(fn, a))]
+    ok, why = True, ""
+    if dbg:
+        ok, why = False, "the string constant is rendered with Debug formatting: backslashes, quotes and control characters come out escaped, so the report no longer shows the string the program assigns"
+    elif len(plain) < 1:
+        ok, why = False, "self.value is not written to the formatter as plain text"
+    elif common.path_to_return_avoiding(fn, plain[:1]):
+        ok, why = False, "on some path the string is not written as plain text"
+    rep.ob(rule, "string-constant-text-is-the-string", ok, why, fn.loc(), how="write_str(self.value) between the quotes, no Debug rendering")
 
 
 def constant_display_rule(ctx, rule):
